@@ -228,9 +228,35 @@ def section_decoder(ctx, tick):
     keys = sorted(k for k in table if isinstance(k, int)) or [1]
     # every code 0..300 from the null state and from a fully set state (catches a wrong table row / sub-parser branch)
     full = sgr(1, 2, 3, 4, 5, 6, 7, 8, 9, 21, 51, 52, 53, 38, 5, 200, 48, 2, 1, 2, 3) + ESC + "]8;id=1;http://u" + ESC + "\\"
+    from rich.style import Style
+
+    def meaning_check(stream):
+        """direct evaluation: the decoded per-character styles mean what ECMA-48 says the stream means"""
+        lines, err = decode_line_case(ctx, stream, tick)
+        if err is not None:
+            return
+        want, _unk = L.stream_meaning(stream)
+        got = [(ch,) + L.style_key(st) for ch, st in zip(lines[0].plain, L.text_char_styles(lines[0], Style.combine))]
+        exp = [(c[0], c[1], c[2], c[3], c[4]) for c in want[0]]
+        ctx.check(got == exp, "AnsiDecoder.decode_line meaning", stream,
+                  f"decoded {got!r}, the stream means {exp!r}" if got != exp else "")
+
+    full_nolink = sgr(1, 2, 3, 4, 5, 6, 7, 8, 9, 21, 51, 52, 53, 38, 5, 200, 48, 2, 1, 2, 3)
     for n in range(0, 301):
         decode_line_case(ctx, sgr(n) + "X", tick)
-        decode_line_case(ctx, full + "a" + sgr(n) + "X", tick)
+        # ECMA-48 reading of the code on a fully set state; rich differs knowingly on 24 / 25 (it keeps the double
+        # variants) and uses 26 for "not blink2": those three are compared with the model only
+        if n in (24, 25, 26):
+            decode_line_case(ctx, full + "a" + sgr(n) + "X", tick)
+            half = sgr(1, 3, 4, 5, 7) + "a" + sgr(n) + "X"
+            if n != 26:
+                meaning_check(half)
+        else:
+            # (no hyperlink in this stream: rich's decoder drops the link at SGR 0, a terminal does not — the encoder never
+            # writes a reset inside a link, so the statement is not affected; compared with the model only)
+            decode_line_case(ctx, full + "a" + sgr(n) + "X", tick)
+            meaning_check(full_nolink + "a" + sgr(n) + "X")
+            meaning_check(sgr(n) + "X" + sgr(0) + "Y")
         decode_line_case(ctx, sgr(38, 5, n) + "X" + sgr(48, 5, n) + "Y", tick)
         decode_line_case(ctx, sgr(38, 2, n, 0, 300 - n) + "X" + sgr(48, 2, 7, n, 1) + "Y", tick)
     # exhaustive token sequences
@@ -356,6 +382,22 @@ def section_roundtrip(ctx, tick):
     other, _ = make_console(300)  # a second truecolor console sharing the style objects (render caches)
     render_buffer = getattr(console, "_render_buffer", None)
     shared = [gen() for _ in range(40)]  # objects reused across cases: cached `_ansi`, cached link ids
+    # every attribute alone, every pair, all together, each with / without a link: the guards of _make_ansi_codes
+    systematic = []
+    for i, a in enumerate(L.ATTRS):
+        systematic.append(Style(**{a: True}))
+        systematic.append(Style(**{a: False}))
+        systematic.append(Style(link="http://l", **{a: True}))
+        for b in L.ATTRS[i + 1:]:
+            systematic.append(Style(**{a: True, b: True}))
+    systematic.append(Style(**{a: True for a in L.ATTRS}))
+    for n in list(range(0, 18)) + [231, 232, 254, 255]:
+        systematic.append(Style(color=f"color({n})"))
+        systematic.append(Style(bgcolor=f"color({n})", bold=True))
+    for trip in [(0, 0, 0), (255, 255, 255), (1, 2, 3), (10, 100, 200)]:
+        systematic.append(Style(color="#%02x%02x%02x" % trip, bgcolor="rgb(%d,%d,%d)" % trip[::-1]))
+    systematic += [Style(color="default"), Style(bgcolor="default"), Style(color="default", bgcolor="default", link="u")]
+    sys_iter = iter(systematic)
 
     def pick():
         return rng.choice(shared) if rng.random() < 0.5 else gen()
@@ -367,8 +409,12 @@ def section_roundtrip(ctx, tick):
     for case_no in range(n_cases):
         # ---- (a) segment lists: Style.render / _render_buffer vs the encoder model, then decode
         segs = []
-        for _ in range(rng.randint(1, 5)):
-            segs.append((rng.choice(SEG_TEXTS), pick()))
+        nxt = next(sys_iter, None)
+        if nxt is not None:
+            segs = [("p", None), ("xy", nxt), ("q", None)]
+        else:
+            for _ in range(rng.randint(1, 5)):
+                segs.append((rng.choice(SEG_TEXTS), pick()))
         tick(segs)
         pieces, err = [], None
         try:
